@@ -89,6 +89,31 @@ def check_atoms(ctx, lay, an, ver, what, adt, table, injected, ipv4, prefix):
     return L
 
 
+def fixed_count_rule(ctx, prog, an, lay, ver, rid):
+    """The V5/V7 packet is its header followed by count(<record>, header.count): all or nothing, so the bytes
+    consumed are exactly header + count x record (shared: C03 R3.3, C02 R2.9)."""
+    S = STRUCTS[ver]
+    top = parse_be_path(S["top"])
+    Lt = lay.parser_layout(top)
+    if ctx.anchor(rid, top, prog.body(top)) and Lt["ok"]:
+        st = Lt["steps"]
+        ok0 = len(st) == 2 and st[0]["term"][0] == "struct" and st[0]["term"][2] in (parse_be_path(S["header"]), parse_be_path(S["header"]).replace("parse_be", "parse")) and st[0]["fields"] == ["header"]
+        ctx.ob(rid, top, "header-then-records", ok0, "steps: %s" % [(s["fields"], term_s(s["term"])[:80]) for s in st])
+        okc = False
+        why = "records are not produced by nom::multi::count"
+        if len(st) == 2 and st[1]["term"][0] == "count":
+            t = st[1]["term"]
+            el = t[1]
+            n = peel(an.simp(t[2]), widen=True)
+            elem_ok = el[0] == "struct" and el[2].startswith("<%s as nom_derive::Parse" % S["record"])
+            n_ok = n[0] == "field" and n[2] == "count" and find(n, lambda x: x[0] == "call" and x[2] is not None and x[2].path.startswith("<%s as nom_derive::Parse" % S["header"]))
+            okc = bool(elem_ok and n_ok and st[1]["fields"] == ["flowsets"])
+            why = "flowsets = count(%s, %s)" % (term_s(el)[:80], canon(n)[:120])
+        ctx.ob(rid, top, "records-by-count(header.count)", okc, why, site=st[1]["site"] if len(st) == 2 else "")
+    elif Lt and not Lt["ok"]:
+        ctx.ob(rid, top, "header-then-records", False, "layout of the top-level parser not recognised: %s" % Lt.get("why", "?"))
+
+
 def run(ctx, env):
     prog = env.prog("default")
     an = An(prog)
@@ -133,26 +158,17 @@ def run(ctx, env):
                         okp = want in canon(arg) or canon(arg) == want
                         why += "; protocol_number atom = %s" % want[:120]
             ctx.ob("R3.2", S["record"], "protocol_type-from-protocol_number", okp, why)
-        # R3.3
-        top = parse_be_path(S["top"])
-        Lt = lay.parser_layout(top)
-        if ctx.anchor("R3.3", top, prog.body(top)) and Lt["ok"]:
-            st = Lt["steps"]
-            ok0 = len(st) == 2 and st[0]["term"][0] == "struct" and st[0]["term"][2] in (parse_be_path(S["header"]), parse_be_path(S["header"]).replace("parse_be", "parse")) and st[0]["fields"] == ["header"]
-            ctx.ob("R3.3", top, "header-then-records", ok0, "steps: %s" % [(s["fields"], term_s(s["term"])[:80]) for s in st])
-            okc = False
-            why = "records are not produced by nom::multi::count"
-            if len(st) == 2 and st[1]["term"][0] == "count":
-                t = st[1]["term"]
-                el = t[1]
-                n = peel(an.simp(t[2]), widen=True)
-                elem_ok = el[0] == "struct" and el[2].startswith("<%s as nom_derive::Parse" % S["record"])
-                n_ok = n[0] == "field" and n[2] == "count" and find(n, lambda x: x[0] == "call" and x[2] is not None and x[2].path.startswith("<%s as nom_derive::Parse" % S["header"]))
-                okc = bool(elem_ok and n_ok and st[1]["fields"] == ["flowsets"])
-                why = "flowsets = count(%s, %s)" % (term_s(el)[:80], canon(n)[:120])
-            ctx.ob("R3.3", top, "records-by-count(header.count)", okc, why, site=st[1]["site"] if len(st) == 2 else "")
-            # parse delegates to parse_be, wrapper calls parse on its argument (C02 R2.5 covers the wrapper)
+        fixed_count_rule(ctx, prog, an, lay, ver, "R3.3")
     ctx.floor("R3.1", "crate", "Cisco field atoms compared", natoms, 55)
+
+    # R3.6 the fixed-format parsers are handed the whole unconsumed rest of the buffer (shared with C02 R2.5)
+    ctx.rule("R3.6", "the packet loop hands the version parsers the caller's buffer or the previous packet's own remainder - never a window of it - so a complete V5 / V7 packet of any count is decoded whole")
+    from . import c02
+    body = c02.entry_body(ctx, prog, "R3.6")
+    if body is not None:
+        pcs = c02.parse_calls(body, c02.parsing_paths(prog))
+        ctx.floor("R3.6", body.path, "parsing calls", len(pcs), 1)
+        c02.feed_back_rule(ctx, prog, an, body, pcs, rid="R3.6", support=False)
 
     # R3.4
     iana = json.load(open(os.path.join(VERIF, "tables", "iana_protocols.json")))
@@ -164,7 +180,7 @@ def run(ctx, env):
         for nme, d in discr.items():
             byd.setdefault(d, []).append(nme)
         # enum names vs IANA
-        for n in range(0, 145):
+        for n in list(range(0, 145)) + [255]:
             want = iana["names"].get(str(n))
             have = byd.get(n, [])
             alias = iana["aliases"].get(str(n))
